@@ -18,6 +18,7 @@ package main
 //             U        start file.d (a child process)       X        the child kills itself (SIGKILL)
 //             W        wait until idle                      K n      ack+commit the n-th eligible event
 //             KA       ack+commit everything pending        S        wait until the offsets file is up to date
+//             P        pause for several maintenance passes (the idle jobs are closed, re-opened and re-positioned)
 //             KQ       ack+commit until every passed event has reached the output and is acked
 //   Steps between X and U (and before the first U) are executed by the parent: the system is down.
 //   The last run has no X: the child waits until idle and exits.
@@ -128,7 +129,7 @@ func parseC03(t *hx.Toks) (*c03Case, bool) {
 			s.g = t.Int()
 		case "K":
 			s.n = t.Int()
-		case "U", "X", "W", "KA", "KQ", "S":
+		case "U", "X", "W", "KA", "KQ", "S", "P":
 		default:
 			return nil, false
 		}
@@ -815,12 +816,24 @@ func (w *c03Input) Commit(e *pipeline.Event) {
 	h.rec(false, nil, "com %d %d %d", f, off, id)
 }
 
+// the id of the line the event is (its "n" field) — provided the event is that whole line: the
+// re-encoded event must be the line's bytes (the generated lines are canonical JSON). A remainder
+// of a line, or a garbled event, gets -2 and matches nothing.
 func c03EventID(e *pipeline.Event) int {
-	if n := e.Root.Dig("n"); n != nil {
-		return n.AsInt()
+	n := e.Root.Dig("n")
+	if n == nil {
+		return -1
 	}
-	return -1
+	id := n.AsInt()
+	if c03LineByID != nil {
+		if want, ok := c03LineByID[id]; !ok || e.Root.EncodeToString()+"\n" != want {
+			return -2
+		}
+	}
+	return id
 }
+
+var c03LineByID map[int]string
 
 type c03Output struct{ h *c03Child }
 
@@ -1034,6 +1047,10 @@ func c03ChildMain(dir string, run int) {
 	}
 	logs := filepath.Join(dir, "logs")
 	h := &c03Child{c: c, dir: dir, logs: logs, run: run, paths: c03Paths(c, logs, start), srcToF: map[uint64]int{}, passed: map[string]int{}, outs: map[string]int{}, goneSent: map[int]bool{}}
+	c03LineByID = map[int]string{}
+	for _, l := range c.lines {
+		c03LineByID[l.id] = string(l.data)
+	}
 	h.trace, err = os.OpenFile(filepath.Join(dir, fmt.Sprintf("trace%d.log", run)), os.O_CREATE|os.O_WRONLY|os.O_APPEND, 0o644)
 	if err != nil {
 		os.Exit(4)
@@ -1150,6 +1167,8 @@ func c03ChildMain(dir string, run int) {
 				}
 				h.ack(el[0])
 			}
+		case "P":
+			time.Sleep(25 * time.Millisecond) // maintenance_interval is 3 ms
 		case "KQ":
 			for {
 				if !h.waitIdle(true) {
